@@ -1276,7 +1276,7 @@ namespace awkward {
     std::vector<ContentPtrVec> for_each_field;
     for (auto field : contents_) {
       ContentPtr trimmed = field.get()->getitem_range_nowrap(0, length_);
-      for_each_field.push_back(ContentPtrVec({ field }));
+      for_each_field.push_back(ContentPtrVec({ trimmed }));
     }
 
     if (istuple()) {
@@ -1370,6 +1370,14 @@ namespace awkward {
 
       if (minlength == -1  ||  merged.get()->length() < minlength) {
         minlength = merged.get()->length();
+      }
+    }
+
+    if (for_each_field.empty()) {
+      // no fields to measure: the merged length is the sum of the lengths
+      minlength = length_;
+      for (auto array : headless) {
+        minlength += array.get()->length();
       }
     }
 
